@@ -57,12 +57,20 @@ type Gen struct {
 	Bkts    int
 	Hnd     int
 	BadJSON int // if > 0, one in BadJSON xattr-setting ops carries an unparseable xattr value
+	Big     int // if > 0, one in Big bodies is padded to 64 KiB - 1 MiB
 	n       int
 }
 
 func (g *Gen) uniq() string { g.n++; return fmt.Sprintf("%d", g.n) }
 
 func (g *Gen) jsonBody() []byte {
+	if g.Big > 0 && g.R.Chance(1, g.Big) {
+		pad := make([]byte, (64<<10)<<uint(g.R.Intn(5)))
+		for i := range pad {
+			pad[i] = byte('a' + i%26)
+		}
+		return []byte(`{"n":7,"t":"big","u":"` + g.uniq() + `","pad":"` + string(pad) + `"}`)
+	}
 	b := rng.Pick(g.R, jsonBodies)
 	// make the value unique so a read identifies the write it observed
 	return []byte(b[:len(b)-1] + `,"u":"` + g.uniq() + `"}`)
